@@ -301,7 +301,8 @@ def client_actor(world, cid_hint, spec, result):
         data = b"".join(b"".join(request_bytes(cid, i, r)) for i, r in enumerate(reqs))
         plan = spec.get("plan")
         if plan:
-            # [[offset, "recv", nbytes] | [offset, "sleep", dt] | [offset, "yield", k]]: send up to
+            # [[offset, "recv", nbytes] | [offset, "sleep", dt] | [offset, "yield", k] | [offset, "gate" |
+            #  "app-waiting" | "any-app-waiting" | "open-all-gates", 0]]: send up to
             # offset, then wait for that condition before sending on
             pos = 0
             for off, kind, arg in plan:
@@ -315,6 +316,15 @@ def client_actor(world, cid_hint, spec, result):
                     world.sleep(arg)
                 elif kind == "gate":
                     world.gates[cid] = True
+                    world.net.changed()
+                elif kind == "any-app-waiting":
+                    # until the gated application of ANY connection is blocked (a worker is occupied)
+                    world.wait_until(lambda: any(isinstance(k, tuple) and k[0] == "waiting" and v for k, v in world.gates.items())
+                                     or c.conn.server_closed)
+                elif kind == "open-all-gates":
+                    for k, v in list(world.gates.items()):
+                        if isinstance(k, tuple) and k[0] == "waiting":
+                            world.gates[k[1]] = True
                     world.net.changed()
                 elif kind == "app-waiting":
                     # until the gated application is blocked (its request was read and dispatched)
